@@ -15,6 +15,7 @@ from py_ballisticcalc import (BCPoint, Calculator, Distance, DragModel, DragMode
 
 from vf import build, gen, monitors
 from vf.build import TABLE_NAMES
+from vf import refs_si as si
 from vf.snapshot import diff, snap, unhex
 
 ID = "C10"
@@ -24,10 +25,13 @@ RULE = ("random histories (20-120 operations: fire plain / extra / time-step, se
         "table objects and 3-4 calculators with different configurations; thread rounds: 8 threads each owning a calculator, "
         "zeroing private copies and firing shared read-only shots, with switch interval 1e-6 and random yields at library "
         "statement starts; a case = one history or one thread round; non-trivial when it contains a zeroing or a raising "
-        "operation interleaved with fires (history) / when thread switches inside library code were observed (round)")
+        "operation interleaved with fires (history) / when thread switches inside library code were observed (round); isolation "
+        "rounds: two argument sets built separately from one specification (equal Atmo.icao arguments, constructor defaults), "
+        "every public edit applied to one, snapshot + results of the other and of a set built afterwards compared")
 MUST_OBSERVE = ["histories", "ops", "op_fire", "op_zero", "op_elev", "op_danger", "op_model", "ops_raised", "results_compared",
                 "pool_snapshots", "zero_changes_accepted", "thread_rounds", "thread_results_compared", "thread_switch_sites",
-                "thread_yields_injected", "shared_objects_in_pool", "warning_emitting_ops", "op_mutate"]
+                "thread_yields_injected", "shared_objects_in_pool", "warning_emitting_ops", "op_mutate", "isolation_sets",
+                "isolation_edits", "isolation_results_compared"]
 ASSUMPTIONS = ["the executable model of an operation is the same operation on a deep copy of its arguments (with the weapon's "
                "current stored zero) executed by a brand-new calculator of the same configuration",
                "thread schedules: only calculators owned by distinct threads, as the statement says; shared-calculator use is not explored",
@@ -255,6 +259,81 @@ def check_history(ctx, case):
     monitors.reset_all()
 
 
+# ----------------------------------------------------------------------------- isolation of separately built arguments
+def check_isolation(ctx, case):
+    """Two argument sets built separately from the same specification share nothing a caller can change: after every public
+    edit of set A (attributes, in-place table edits, winds, Atmo.humidity, zeroing, display-unit relabels) set B - built
+    before the edits - still has its snapshot and its results, and a set built afterwards equals what B was."""
+    import random
+    monitors.reset_all()
+    rng = random.Random(case["seed"])
+    specs = []
+    for k in range(4):
+        s = gen.shot(rng, custom=0.2, wind_max=30.0, wind_n=2)
+        s["rel_deg"], s["mv_fps"] = min(s["rel_deg"], 10.0), max(s["mv_fps"], 900.0)
+        s.pop("_restate", None)
+        if k < 2:
+            s["atmo"] = {"kind": "icao", "alt_ft": case["alt_ft"]}          # equal factory arguments on purpose
+        specs.append(s)
+
+    def build_set():
+        out = [build.shot(s) for s in specs]
+        # one shot that relies on the constructor's defaults (no atmosphere, no winds given)
+        out.append(pb.Shot(weapon=build.weapon(specs[0]), ammo=build.ammo(specs[0])))
+        return out
+
+    def use(shots):
+        res = []
+        for sh in shots:
+            res.append(outcome(lambda sh=sh: list(Calculator().fire(sh, Distance.Foot(case["range_ft"]), Distance.Foot(case["range_ft"] / 3), True))))
+        return res
+
+    with monitors.quiet():
+        set_a, set_b = build_set(), build_set()
+        want_snap = [snap(s) for s in set_b]
+        want_res = use(set_b)
+        use(set_a)
+        for sh in set_a:
+            for what in ("bc", "bullet", "table_inplace", "wind_until", "wind_append", "look", "mv", "sight_height", "twist"):
+                if what.startswith("wind") and not sh._winds:  # pylint: disable=protected-access
+                    continue
+                mutate(["mutate", 0, what, case["k"]], sh, set_a)
+                ctx.count("isolation_edits")
+            sh.atmo.humidity = case["humidity"]
+            sh.relative_angle = pb.Angular.Degree(2.5)
+            sh.cant_angle = pb.Angular.Degree(7.0)
+            sh.ammo.powder_temp = pb.Temperature.Celsius(31.0)
+            sh.ammo.temp_modifier, sh.ammo.use_powder_sensitivity = 0.03, True
+            for q in (sh.look_angle, sh.weapon.sight_height, sh.weapon.twist, sh.weapon.zero_elevation, sh.ammo.mv, sh.atmo.altitude,
+                      sh.atmo.pressure, sh.atmo.temperature):
+                q << rng.choice(si.DIMENSIONS[type(q).__name__])
+            ctx.count("isolation_edits", 6)
+            outcome(lambda sh=sh: Calculator().set_weapon_zero(sh, Distance.Foot(300.0)))
+        use(set_a)
+        ctx.count("isolation_sets")
+        got_snap = [snap(s) for s in set_b]
+        if got_snap != want_snap:
+            d = diff(want_snap, got_snap)
+            ctx.violation("isolation.other-argument-set-changed", f"editing one argument set changed a separately built one at {d[0]}: "
+                                                                  f"{unhex(d[1])!r} -> {unhex(d[2])!r}", case, path=d[0])
+        got_res = use(set_b)
+        ctx.count("isolation_results_compared", len(got_res))
+        if got_res != want_res:
+            d = diff(want_res, got_res)
+            ctx.violation("isolation.result-depends-on-other-arguments", f"the result for an untouched argument set changed after a separately built "
+                                                                         f"set was edited: at {d[0] if d else '?'}", case)
+        set_c = build_set()
+        late_snap = [snap(s) for s in set_c]
+        if late_snap != want_snap:
+            d = diff(want_snap, late_snap)
+            ctx.violation("isolation.construction-depends-on-history", f"arguments built from the same specification after the edits differ from those "
+                                                                       f"built before at {d[0]}: {unhex(d[1])!r} -> {unhex(d[2])!r}", case, path=d[0])
+        if use(set_c) != want_res:
+            ctx.violation("isolation.construction-depends-on-history", "arguments built from the same specification after the edits give other results", case)
+    ctx.case(case, nontrivial=True)
+    monitors.reset_all()
+
+
 # ----------------------------------------------------------------------------- threads
 def check_threads(ctx, case):
     import random
@@ -367,6 +446,12 @@ def run(ctx):
             break
         check_threads(ctx, {"kind": "threads", "seed": ctx.rng.getrandbits(40), "threads": 8, "ops_per_thread": 2 if ctx.tier == "quick" else 5,
                             "p_yield": ctx.rng.choice([0.001, 0.003, 0.01])})
+    for _ in range(ctx.share(14 if ctx.tier == "quick" else 700)):
+        if not ctx.time_left():
+            break
+        check_isolation(ctx, {"kind": "isolation", "seed": ctx.rng.getrandbits(40), "alt_ft": ctx.rng.choice([0.0, round(ctx.rng.uniform(0, 9000), 1)]),
+                              "humidity": round(ctx.rng.uniform(20, 95), 1), "k": round(ctx.rng.uniform(0.7, 1.4), 3),
+                              "range_ft": ctx.rng.choice([300.0, 900.0, 2400.0])})
     for _ in range(ctx.share(n_hist)):
         if not ctx.time_left():
             break
@@ -374,7 +459,9 @@ def run(ctx):
 
 
 def replay(ctx, case):
-    if case["kind"] == "threads":
+    if case["kind"] == "isolation":
+        check_isolation(ctx, {k: case[k] for k in ("kind", "seed", "alt_ft", "humidity", "k", "range_ft")})
+    elif case["kind"] == "threads":
         check_threads(ctx, {k: case[k] for k in ("kind", "seed", "threads", "ops_per_thread", "p_yield")})
     else:
         check_history(ctx, {k: case[k] for k in ("kind", "seed", "length")})
